@@ -32,14 +32,31 @@ RULE = ("streams of 1..k valid frames per connection type with sizes straddling 
         "(varint), 0xFFFF/0x10000 (Companion), 1023/1024/1025 and multiples (HAP), header-only frames; cuts: "
         "unsplit, every single cut (short streams) or every cut within 3 bytes of a structural boundary (long "
         "streams), all 2-cuts (short streams), byte-at-a-time, random multi-cuts; non-trivial = at least one "
-        "cut strictly inside a frame (prefix/header/tag/body), distinct = (target, stream, cuts)")
+        "cut strictly inside a frame (prefix/header/tag/body), distinct = (target, stream, cuts, sends); also: the "
+        "last frame split with nothing arriving after it (tail), the application sending between the reads "
+        "(real send()/send_and_receive, HTTP request i sent no later than the read bringing response i), 2-3 live "
+        "connection objects of one type with interleaved reads (objects created at first use), and multi-MiB frames "
+        "(1/5/17 MiB; 16 MiB-1 for Companion) with a handful of cuts on the real code only")
 ASSUMPTIONS = [
     "asyncio calls data_received sequentially with non-empty chunks and closes the transport when it raises",
     "ChaCha20-Poly1305 is a parameter of the model: the Lean driver is told the plaintext of each HAP block",
     "streams are valid (every frame well formed and authentic); behaviour after a parse/auth error is C05/C07",
+    "multi-MiB frames are checked by the direct oracle only (the Lean driver is not shown those bytes; the theorems "
+    "hold for every length, the model/code correspondence is validated up to 64 KiB frames)",
+    "sends and other connections are operations that leave the receive state untouched in the model "
+    "(C02_sends_irrelevant, C02_connections_independent); the harness checks the real objects behave so",
 ]
 TRUSTED = ["fake transports/listeners and cipher/decoder spies of harness/c02.py",
            "the stream generators of harness/c02.py (independent encoders: own varint, cryptography's AEAD)"]
+
+
+_PATTERN = bytes(range(256)) * 16
+
+
+def pattern(size, salt=0):
+    """`size` deterministic bytes, built without a Python-level loop (multi-MiB frames)."""
+    rot = _PATTERN[salt % 251:] + _PATTERN[:salt % 251]
+    return (rot * (size // len(rot) + 1))[:size]
 
 
 def sig(b):
@@ -68,6 +85,23 @@ HANGS = {}          # target -> receive callbacks that did not return (after 3 t
 
 def _on_alarm(_sig, _frame):
     raise Hang()
+
+
+_LOOP = []
+
+
+def loop():
+    """One private event loop for the HTTP client sessions (send_and_receive is a coroutine)."""
+    import asyncio
+    if not _LOOP:
+        _LOOP.append(asyncio.new_event_loop())
+    return _LOOP[0]
+
+
+def spin(n=2):
+    import asyncio
+    for _ in range(n):
+        loop().run_until_complete(asyncio.sleep(0))
 
 
 class Peer:
@@ -217,7 +251,7 @@ def build_companion(rng, spec):
         if i == len(sizes) - 1:
             st.probe_at = len(st.wire)
         ftype = rng.choice(COMPANION_TYPES)
-        plain = rng.bytes_(size) if size < 4096 else bytes((j * 7 + i) % 256 for j in range(size))
+        plain = rng.bytes_(size) if size < 4096 else pattern(size, i)
         wire_len = len(plain) + (16 if (enc and plain) else 0)
         header = bytes([ftype]) + wire_len.to_bytes(3, "big")
         payload = peer.seal(plain, aad=header) if (enc and plain) else plain
@@ -290,6 +324,16 @@ def layered(st, rng, frames, probe_plain_at, spec):
         consumed += len(blk)
         pos += 2 + len(blk) + 16
     st.probe_at = pos
+    # wire offset of the block that carries the first byte of each upper frame
+    block_at, off, pos = [], 0, 0
+    for blk in st.plains:
+        block_at.append((off, pos))
+        off += len(blk)
+        pos += 2 + len(blk) + 16
+    st.first, acc = [], 0
+    for f in frames:
+        st.first.append(max(w for (o, w) in block_at if o <= acc))
+        acc += len(f)
 
 
 def data_frame(rng, kind, seqno):
@@ -300,12 +344,13 @@ def data_frame(rng, kind, seqno):
     if kind == "empty":
         payload = b""
     else:
-        count = {"one": 1, "three": 3, "big": 2}[kind]
+        huge = int(kind[5:]) if kind.startswith("huge:") else 0
+        count = 1 if huge else {"one": 1, "three": 3, "big": 2}[kind]
         data = b""
         for j in range(count):
             msg = protobuf.ProtocolMessage()
             msg.type = protobuf.ProtocolMessage.DEVICE_INFO_MESSAGE
-            msg.identifier = "d" * (rng.randint(40, 60) if kind != "big" else rng.randint(900, 1300))
+            msg.identifier = "d" * (huge or (rng.randint(40, 60) if kind != "big" else rng.randint(900, 1300)))
             raw = msg.SerializeToString()
             pbs.append(sig(raw))
             data += varint(len(raw)) + raw
@@ -333,9 +378,14 @@ def build_data(rng, spec):
 
 def http_message(rng, kind, i, request):
     """(wire, header block, body, key)"""
-    size = {"nobody": 0, "zero": 0, "small": rng.randint(1, 40), "sep": 24, "kilo": rng.choice([1023, 1024, 1025]),
-            "big": rng.randint(2000, 5000)}[kind]
-    if kind == "sep":
+    if kind.startswith("huge:"):
+        size = int(kind[5:])
+    else:
+        size = {"nobody": 0, "zero": 0, "small": rng.randint(1, 40), "sep": 24, "kilo": rng.choice([1023, 1024, 1025]),
+                "big": rng.randint(2000, 5000)}[kind]
+    if kind.startswith("huge:"):
+        body = (b"0123456789abcdef\r\n\r\nxyz " * (size // 24 + 1))[:size]
+    elif kind == "sep":
         body = b"ab\r\n\r\ncd\r\n\r\nGET / HTTP/1.1\r\n"[:size]
     else:
         body = bytes(rng.choice(b"abcdefghijklmnopqrstuvwxyz \r\n") for _ in range(size))
@@ -369,7 +419,9 @@ def build_http(rng, spec):
         st.descs.append("%s.%s" % (sig(header), sig(body)))
         st.contents.append(key)
     if target in ("http", "server"):
+        st.first = []
         for j, (wire, header, body) in enumerate(frames):
+            st.first.append(len(st.wire))
             if j == len(frames) - 1:
                 st.probe_at = len(st.wire)
             st.add("header^", header + b"\r\n\r\n")
@@ -397,6 +449,10 @@ class Session:
         self.frames = []       # framer-level observation of the current read
         self.up = []           # what reached the layer above (all reads so far)
         self.blocks = 0
+        self.quiet = False     # True while the harness itself sends (not a reaction to received data)
+        self.sent = 0
+        self.send_op = lambda: None
+        self.close = lambda: None
         getattr(self, "_init_" + st.target.replace("-", "_"))()
 
     # -- MRP
@@ -420,6 +476,7 @@ class Session:
             self.obj.enable_encryption(self.st.keys[0], self.st.keys[1])
         self.call = self.obj.data_received
         self.rest = lambda: [len(self.obj._buffer)]
+        self.send_op = lambda: self.obj.send_raw(b"verif-ping-%d" % self.sent)
 
     def _init_mrp_enc(self):
         self._init_mrp(enc=True)
@@ -442,6 +499,8 @@ class Session:
             self.obj.enable_encryption(self.st.keys[0], self.st.keys[1])
         self.call = self.obj.data_received
         self.rest = lambda: [len(self.obj._buffer)]
+        from pyatv.protocols.companion.connection import FrameType
+        self.send_op = lambda: self.obj.send(FrameType.NoOp if self.sent % 2 else FrameType.E_OPACK, b"ping" * (self.sent % 3))
 
     def _init_companion_enc(self):
         self._init_companion(enc=True)
@@ -472,6 +531,7 @@ class Session:
 
         self.call = call
         self.rest = lambda: [len(self.obj._encrypted_data)]
+        self.send_op = lambda: self.obj.encrypt(b"verif-ping-%d" % self.sent)
 
     # -- channels above HAP
     def _channel(self, cls, on_reply):
@@ -488,12 +548,14 @@ class Session:
                 reply_peer[1] += 1
                 out += reply_peer[0].decrypt(nonce, data[2:2 + n + 16], data[:2])
                 data = data[2 + n + 16:]
-            on_reply(out)
+            if not self.quiet:
+                on_reply(out)
 
         self.obj.transport = FakeTransport(on_write)
         self._spy_cipher(self.obj.session, False)
         self.call = self.obj.data_received
         self.rest = lambda: [len(self.obj.session._encrypted_data), len(self.obj.buffer)]
+        self.send_op = lambda: self.obj.send(b"verif-ping-%d" % self.sent)
 
     def _init_data(self):
         from pyatv.protocols.airplay.channels import DataStreamChannel
@@ -550,15 +612,10 @@ class Session:
 
     # -- HTTP client
     def _init_http(self, hap=False):
-        import asyncio
         from pyatv.support.http import HttpConnection
         self.obj = HttpConnection()
-        self.obj.transport = FakeTransport()
-        self.pending = []
-        for _ in range(len(self.st.descs) + 2):
-            p = HttpConnection.PendingRequest(event=asyncio.Event())
-            self.obj._requests.appendleft(p)
-            self.pending.append(p)
+        self.obj.transport = FakeTransport(lambda data: None)
+        self.tasks = []
         self.seen = 0
         rest = [lambda: len(self.obj._buffer)]
         if hap:
@@ -567,19 +624,49 @@ class Session:
             self.hap.enable(self.st.keys[0], self.st.keys[1])
             self._spy_cipher(self.hap, False)
             self.obj.receive_processor = self.hap.decrypt
+            self.obj.send_processor = self.hap.encrypt
             rest.insert(0, lambda: len(self.hap._encrypted_data))
 
-        def call(chunk):
-            self.obj.data_received(chunk)
-            while self.seen < len(self.pending) and self.pending[self.seen].response is not None:
-                r = self.pending[self.seen].response
-                body = r.body.encode() if isinstance(r.body, str) else r.body
-                key = [r.code, r.headers.get("CSeq"), sig(body)]
+        def issue():
+            """The application sends the next request through the real send_and_receive."""
+            if len(self.tasks) >= len(self.st.descs):
+                return
+            self.tasks.append(loop().create_task(
+                self.obj.send_and_receive("GET", "/verif/%d" % len(self.tasks), allow_error=True, timeout=3600)))
+            spin(1)
+
+        def collect():
+            spin(2)
+            while self.seen < len(self.tasks) and self.tasks[self.seen].done():
+                t = self.tasks[self.seen]
+                if t.cancelled() or t.exception() is not None:
+                    key = ["error", None if t.cancelled() else type(t.exception()).__name__, "-"]
+                else:
+                    r = t.result()
+                    body = r.body.encode() if isinstance(r.body, str) else r.body
+                    key = [r.code, r.headers.get("CSeq"), sig(body)]
                 self.frames.append(key)
-                self.up.append(["response"] + key)
+                self.up.append(["response", self.seen] + key)
                 self.seen += 1
 
+        def call(chunk):
+            try:
+                self.obj.data_received(chunk)
+            finally:
+                collect()
+
+        def close():
+            for t in self.tasks:
+                if not t.done():
+                    t.cancel()
+            spin(2)
+            for t in self.tasks:
+                if t.done() and not t.cancelled():
+                    t.exception()
+
         self.call = call
+        self.send_op = issue
+        self.close = close
         self.rest = lambda: [f() for f in rest]
 
     def _init_http_hap(self):
@@ -626,6 +713,18 @@ class Session:
     def _init_server_hap(self):
         self._init_server(hap=True)
 
+    # -- the application sends something between two reads
+    def send(self):
+        self.quiet = True
+        try:
+            self.send_op()
+            self.sent += 1
+            return None
+        except Exception as e:
+            return type(e).__name__
+        finally:
+            self.quiet = False
+
     # -- one read
     def feed(self, chunk):
         self.frames, self.blocks = [], 0
@@ -654,21 +753,92 @@ FRAMER = {"mrp": "mrp", "mrp-enc": "mrp", "companion": "companion", "companion-e
           "http": "http", "server": "httpreq"}
 
 
-def run_real(st, cuts):
+class Run:
+    """One real connection object fed read by read, with the application's sends in between."""
+
+    def __init__(self, st, cuts, sends=None, initial=None):
+        self.st = st
+        self.chunks = [c for c in split_at(st.wire, cuts) if c]
+        self.sends = {int(k): v for k, v in (sends or {}).items()}   # read index -> sends just before it
+        self.initial = initial
+        self.sess, self.trace, self.i, self.dead = None, [], 0, False
+
+    def step(self):
+        if self.sess is None:                      # connection objects are created when first needed
+            self.sess = Session(self.st)
+            n0 = self.initial
+            if n0 is None:                         # HTTP client: every request already sent (pipelined)
+                n0 = len(self.st.descs) if self.st.target in ("http", "http-hap") else 0
+            for _ in range(n0):
+                self.sess.send()
+        for _ in range(self.sends.get(self.i, 0)):
+            self.sess.send()
+        ob = self.sess.feed(self.chunks[self.i])
+        self.trace.append(ob)
+        self.i += 1
+        self.dead = bool(ob["exc"])
+
+    def done(self):
+        return self.dead or self.i >= len(self.chunks)
+
+    def finish(self):
+        if self.sess is None:
+            self.sess = Session(self.st)
+        self.sess.close()
+        return self.trace, self.sess.up
+
+
+def run_real(st, cuts, sends=None, initial=None):
     """Feed the stream cut at `cuts` (+ the probe as its own read) to a fresh real object."""
-    sess = Session(st)
-    trace = []
-    for chunk in split_at(st.wire, cuts):
-        if not chunk:
-            continue
-        ob = sess.feed(chunk)
-        trace.append(ob)
-        if ob["exc"]:
-            break
-    return trace, sess.up
+    r = Run(st, cuts, sends, initial)
+    while not r.done():
+        r.step()
+    return r.finish()
+
+
+def run_multi(members, order):
+    """Several live connections of the same type; `order` = whose read comes next."""
+    runs = [Run(st, cuts, sends, initial) for (st, cuts, sends, initial) in members]
+    for idx in order:
+        if not runs[idx].done():
+            runs[idx].step()
+    for r in runs:
+        while not r.done():
+            r.step()
+    return [r.finish() for r in runs]
+
+
+def send_schedule(st, cuts, rng):
+    """Where the application sends between the reads of `cuts + [probe]`.  HTTP client: request i
+    is sent no later than just before the read that brings the first byte of response i."""
+    bounds = list(cuts) + [st.probe_at]
+    nreads = len(bounds) + 1
+    sends = {}
+    if st.target in ("http", "http-hap"):
+        total = len(st.descs)
+        initial = rng.randint(1, total)
+        prev = 0
+        for i in range(initial, total):
+            latest = bisect.bisect_right(bounds, st.first[i])
+            p = latest if rng.chance(0.6) else rng.randint(prev, latest)
+            p = max(prev, min(p, latest))
+            sends[p] = sends.get(p, 0) + 1
+            prev = p
+        return sends, initial
+    for k in range(nreads):
+        if rng.chance(0.5):
+            sends[k] = rng.randint(1, 2)
+    return sends, 0
 
 
 # --------------------------------------------------------------------------- model side
+
+def read_cuts(st, kind, cuts):
+    """Cut positions actually used: the probe is its own read except for `whole` and `tail`."""
+    if cuts is None:
+        return []
+    return list(cuts) if kind == "tail" else list(cuts) + [st.probe_at]
+
 
 def model_line(st, cuts):
     if st.target in LAYERED:
@@ -745,6 +915,22 @@ def cut_sets(ctx, st, rng, plan):
     n = st.probe_at
     yield "whole", None          # the entire stream, probe included, in ONE read: the reference
     yield "unsplit", []          # stream | probe
+    # the last frame is split too (no read boundary before it): the stream simply ends
+    # inside/after it, nothing arrives later to flush a stalled parser
+    total = len(st.wire)
+    tail = list(range(n + 1, total))
+    if len(tail) > plan.get("tail", 40):
+        keep = set(c for c in near(st, total, 3) if c > n) | set(rng.sample(tail, min(8, len(tail))))
+        tail = sorted(keep)
+    if plan.get("blocks"):
+        tail = sorted(rng.sample(tail, min(3, len(tail))))
+    for c in tail:
+        yield "tail", [c]
+    for _ in range(0 if plan.get("blocks") else min(plan["random"], 10)):
+        if n > 1 and tail:
+            yield "tail", sorted({rng.randint(1, n), rng.choice(tail)})
+    if total <= plan["bytewise"] and not plan.get("blocks"):
+        yield "tail", list(range(1, total))
     if n <= 1:
         return
     if plan.get("blocks"):
@@ -851,12 +1037,24 @@ def prepare(ctx, seed, path, spec):
     rng = Rng(seed, *path)
     st = build(seed, path, spec)
     n = st.probe_at
-    cases = list(cut_sets(ctx, st, rng.fork("cuts"), make_plan(ctx, n, spec["plan"])))
+    cases = [(k, c, None) for k, c in cut_sets(ctx, st, rng.fork("cuts"), make_plan(ctx, n, spec["plan"]))]
+    # the same segmentations with the application sending between the reads
+    srng = rng.fork("sends")
+    pool = [c for c in cases if c[1] and c[0] != "tail"]
+    want = ctx.scale(2, 4) if spec["plan"] == "blocks" else ctx.scale(25, 120)
+    for kind, cuts, _ in (srng.sample(pool, min(want, len(pool))) if pool else []):
+        sends, initial = send_schedule(st, cuts, srng)
+        cases.append(("sends", cuts, {"sends": {str(k): v for k, v in sorted(sends.items())}, "initial": initial}))
+    lines = stream_lines(st)
+    lines += [model_line(st, read_cuts(st, kind, cuts)) for kind, cuts, _x in cases]
+    return st, cases, lines
+
+
+def stream_lines(st):
     lines = ["stream " + st.wire.hex()]
     if st.plains is not None:
         lines.append("plains " + " ".join(p.hex() or "-" for p in st.plains))
-    lines += [model_line(st, [] if cuts is None else cuts + [n]) for _kind, cuts in cases]
-    return st, cases, lines
+    return lines
 
 
 def evaluate(ctx, path, spec, st, cases, answers):
@@ -866,13 +1064,15 @@ def evaluate(ctx, path, spec, st, cases, answers):
         ctx.disagree({"target": st.target, "spec": _public(spec)}, "n/a", answers[:head], where="driver setup")
         return
     base = None
-    for (kind, cuts), ans in zip(cases, answers[head:]):
+    for (kind, cuts, extra), ans in zip(cases, answers[head:]):
         case = {"target": st.target, "spec": _public(spec), "rng_path": list(path), "cuts": cuts,
-                "stream_len": len(st.wire), "probe_at": n}
+                "stream_len": len(st.wire), "probe_at": n, "kind": kind}
+        extra = extra or {}
+        case.update(extra)
         if HANGS.get(st.target, 0) >= 3 and ctx.failures:
             ctx.note("skipped-after-hang:" + st.target)     # failing inputs already recorded
             continue
-        trace, up = run_real(st, [] if cuts is None else cuts + [n])
+        trace, up = run_real(st, read_cuts(st, kind, cuts), extra.get("sends"), extra.get("initial"))
         cuts = cuts or []
         where = [st.classify(c) for c in cuts]
         for w in set(where):
@@ -880,7 +1080,7 @@ def evaluate(ctx, path, spec, st, cases, answers):
         ctx.note("target:" + st.target)
         ctx.note("cuts:" + kind)
         nontrivial = any(w != "boundary" for w in where)
-        ctx.case([st.target, _public(spec), list(path), cuts], nontrivial,
+        ctx.case([st.target, _public(spec), list(path), cuts, extra], nontrivial,
                  sample={"target": st.target, "frames": len(st.descs), "stream_len": len(st.wire), "cuts": cuts[:8],
                          "cut_in": where[:8], "kind": kind,
                          "reads": [len(ob["frames"]) for ob in trace][:10]}
@@ -897,6 +1097,7 @@ def evaluate(ctx, path, spec, st, cases, answers):
         final = trace[-1]
         if kind == "whole":
             base = (up, final["rest"])
+            st.base = base
             expected = getattr(st, "deliveries", None)
             if expected is not None and up != expected:
                 ctx.disagree(case, _clip(up), _clip(expected), where="whole-stream run vs what the generator encoded")
@@ -916,9 +1117,11 @@ def evaluate(ctx, path, spec, st, cases, answers):
         else:
             if up != base[0]:
                 probe_lost = len(up) < len(base[0]) and up == base[0][:len(up)]
-                ctx.fail("%s:%s" % (st.target, "frames-lost" if probe_lost else "delivered-differs"), case,
+                ctx.fail("%s:%s%s" % (st.target, "frames-lost" if probe_lost else "delivered-differs",
+                                      "-with-sends" if kind == "sends" else ""), case,
                          _clip(up), _clip(base[0]),
-                         "split stream delivers %d items, unsplit %d (cuts %s in %s)" % (len(up), len(base[0]), cuts[:6], where[:6]))
+                         "split stream%s delivers %d items, unsplit %d (cuts %s in %s)"
+                         % (" with sends between the reads" if kind == "sends" else "", len(up), len(base[0]), cuts[:6], where[:6]))
             elif final["rest"] != base[1]:
                 ctx.fail(st.target + ":residual-differs", case, final["rest"], base[1],
                          "buffer left behind differs from the unsplit run")
@@ -957,10 +1160,140 @@ def run(ctx):
         st, cases, ls = prepare(ctx, ctx.seed, path, spec)
         work.append((path, spec, st, cases, len(lines), len(ls)))
         lines += ls
+    groups = multi_groups(ctx, work, rng.fork("multi"))
+    for g in groups:
+        g["off"] = len(lines)
+        for (w, cuts, _sends, _initial) in g["members"]:
+            lines += stream_lines(w[2]) + [model_line(w[2], cuts + [w[2].probe_at])]
     answers = ctx.lean(lines)           # one driver process for the whole run
     for path, spec, st, cases, off, cnt in work:
         evaluate(ctx, path, spec, st, cases, answers[off:off + cnt])
+    for g in groups:
+        evaluate_multi(ctx, g, answers)
+    large_phase(ctx, rng.fork("large"))
     replay_d1(ctx)
+
+
+# --------------------------------------------------------------------------- several connections
+
+def multi_groups(ctx, work, rng):
+    """2-3 live connections of the same type with interleaved reads (and sends)."""
+    by_target = {}
+    for w in work:
+        st = w[2]
+        if st.probe_at > 1 and len(st.wire) <= 6000:
+            by_target.setdefault(st.target, []).append(w)
+    groups = []
+    for target in sorted(by_target):
+        pool = by_target[target]
+        for _ in range(ctx.scale(10, 60)):
+            members = []
+            for _m in range(rng.randint(2, 3)):
+                w = rng.choice(pool)
+                st = w[2]
+                k = rng.randint(1, min(6, st.probe_at - 1))
+                cuts = sorted(rng.sample(range(1, st.probe_at), k))
+                sends, initial = send_schedule(st, cuts, rng) if rng.chance(0.5) else (None, None)
+                members.append((w, cuts, sends, initial))
+            slots = [i for i, (w, cuts, _s, _i) in enumerate(members) for _ in range(len(cuts) + 2)]
+            rng.shuffle(slots)
+            groups.append({"target": target, "members": members, "order": slots})
+    return groups
+
+
+def evaluate_multi(ctx, g, answers):
+    members = g["members"]
+    if HANGS.get(g["target"], 0) >= 3 and ctx.failures:
+        return
+    if any(not hasattr(w[2], "base") for (w, _c, _s, _i) in members):
+        return                                      # the single-connection reference already failed
+    results = run_multi([(w[2], cuts + [w[2].probe_at], sends, initial) for (w, cuts, sends, initial) in members], g["order"])
+    case = {"target": g["target"], "order": g["order"],
+            "members": [{"rng_path": list(w[0]), "spec": _public(w[1]), "cuts": cuts,
+                         "sends": {str(k): v for k, v in sorted((sends or {}).items())} if sends is not None else None,
+                         "initial": initial} for (w, cuts, sends, initial) in members]}
+    ctx.note("target:" + g["target"])
+    ctx.note("cuts:multi-connection")
+    ctx.case(["multi", case], True, sample=None)
+    off = g["off"]
+    for j, ((w, cuts, sends, initial), (trace, up)) in enumerate(zip(members, results)):
+        st = w[2]
+        head = 2 if st.plains is not None else 1
+        ans = answers[off + head]
+        off += head + 1
+        diff = compare(st, trace, parse_model(st, ans)) if ans != "bad-op" else "driver rejected the line"
+        if diff:
+            ctx.disagree(dict(case, member=j), _short(trace), ans[:400], where="connection %d of %d interleaved: %s" % (j, len(members), diff))
+        ctx.validated()
+        exc = next((ob["exc"] for ob in trace if ob["exc"]), None)
+        if exc:
+            ctx.fail("%s:multi-connection:exception:%s" % (st.target, exc), dict(case, member=j), exc, "no exception",
+                     "%s escapes the receive callback of connection %d when %d connections are read interleaved" % (exc, j, len(members)))
+        elif up != st.base[0] or trace[-1]["rest"] != st.base[1]:
+            ctx.fail("%s:multi-connection:delivered-differs" % st.target, dict(case, member=j), _clip(up), _clip(st.base[0]),
+                     "connection %d of %d live connections with interleaved reads delivers %d items, alone %d"
+                     % (j, len(members), len(up), len(st.base[0])))
+
+
+# --------------------------------------------------------------------------- very large frames
+
+def large_specs(ctx):
+    MiB = 1 << 20
+    T = ctx.thorough
+    out = []
+    for size in ([MiB, 5 * MiB, 17 * MiB] if T else [MiB + 3, 5 * MiB]):
+        out.append({"family": "mrp", "enc": False, "sizes": [size, 3, 2]})
+        out.append({"family": "http", "target": "http", "kinds": ["huge:%d" % size, "small", "nobody"]})
+        out.append({"family": "http", "target": "server", "kinds": ["huge:%d" % size, "small", "nobody"]})
+    for size in ([MiB, 5 * MiB, (1 << 24) - 1] if T else [5 * MiB, (1 << 24) - 1]):
+        out.append({"family": "companion", "enc": False, "sizes": [size, 1, 0]})
+    out.append({"family": "mrp", "enc": True, "sizes": [5 * MiB, 30]})
+    out.append({"family": "companion", "enc": True, "sizes": [5 * MiB, 2]})
+    out.append({"family": "data", "kinds": ["huge:%d" % (MiB if T else 300000), "one"], "sends": "per-frame"})
+    out.append({"family": "http", "target": "http-hap", "kinds": ["huge:%d" % (MiB if T else 300000), "nobody"], "sends": "per-frame"})
+    if T:
+        out.append({"family": "http", "target": "event", "kinds": ["huge:%d" % MiB, "nobody"], "sends": "per-frame"})
+    return out
+
+
+def large_phase(ctx, rng):
+    """Frames far larger than anything above (MiB range), on the real code only: the model
+    driver is not shown these bytes (the theorems hold for every length)."""
+    for i, spec in enumerate(large_specs(ctx)):
+        spec = dict(spec, plan=None)
+        path = tuple(rng.path) + ("large", i)
+        st = build(ctx.seed, path, spec)
+        n = st.probe_at
+        crng = Rng(ctx.seed, *path).fork("cuts")
+        first_end = st.regions[0][1]
+        singles = sorted({1, first_end, first_end + 1, n // 2, n - 1, crng.randint(2, n - 2), crng.randint(2, n - 2)} - {0, n})
+        cut_lists = [None] + [[c] for c in singles] + [sorted(crng.sample(range(1, n), 5))]
+        if HANGS.get(st.target, 0) >= 3 and ctx.failures:
+            continue
+        base = None
+        for cuts in cut_lists:
+            case = {"target": st.target, "spec": _public(spec), "rng_path": list(path), "cuts": cuts,
+                    "stream_len": len(st.wire), "probe_at": n, "large": True}
+            trace, up = run_real(st, [] if cuts is None else cuts + [n])
+            ctx.note("target:" + st.target)
+            ctx.note("cuts:large-frame")
+            ctx.case([st.target, _public(spec), "large", cuts], cuts is not None)
+            exc = next((ob["exc"] for ob in trace if ob["exc"]), None)
+            if cuts is None:
+                base = (up, trace[-1]["rest"])
+                if exc or len(up) != expected_up(st):
+                    ctx.fail(st.target + ":large:whole-incomplete", case, exc or _clip(up), "%d items" % expected_up(st),
+                             "a valid stream with a %d-byte frame delivered in one read hands %d items upward (expected %d)"
+                             % (n, len(up), expected_up(st)))
+                    break
+                continue
+            if exc:
+                ctx.fail("%s:large:exception:%s" % (st.target, exc), case, exc, "no exception",
+                         "%s escapes the receive callback for a %d-byte stream cut at %s" % (exc, n, cuts))
+            elif up != base[0] or trace[-1]["rest"] != base[1]:
+                ctx.fail(st.target + ":large:delivered-differs", case, _clip(up), _clip(base[0]),
+                         "stream with a multi-MiB frame (%d bytes) cut at %s delivers %d items, in one read %d"
+                         % (n, cuts, len(up), len(base[0])))
 
 
 def replay_d1(ctx):
@@ -994,19 +1327,32 @@ def widen(ctx):
 def replay(ctx, failure):
     logging.getLogger("pyatv").setLevel(100)
     case = failure["case"]
+    if "members" in case:
+        members, bases = [], []
+        for m in case["members"]:
+            st = build(ctx.seed, tuple(m["rng_path"]), dict(m["spec"], plan=None))
+            bases.append(run_real(st, []))
+            members.append((st, list(m["cuts"]) + [st.probe_at], m.get("sends"), m.get("initial")))
+        results = run_multi(members, case["order"])
+        for (trace, up), (btrace, bup) in zip(results, bases):
+            if any(ob["exc"] for ob in trace) or up != bup or trace[-1]["rest"] != btrace[-1]["rest"]:
+                return True
+        return False
     spec = dict(case["spec"], plan=None)
     st = build(ctx.seed, tuple(case["rng_path"]), spec)
     n = st.probe_at
     base, up0 = run_real(st, [])
     if case["cuts"] is None:
         return bool(any(ob["exc"] for ob in base) or len(up0) != expected_up(st))
-    trace, up = run_real(st, list(case["cuts"]) + [n])
+    trace, up = run_real(st, read_cuts(st, case.get("kind"), case["cuts"]), case.get("sends"), case.get("initial"))
     return bool(any(ob["exc"] for ob in trace) or up != up0 or trace[-1]["rest"] != base[-1]["rest"])
 
 
 def shrink(ctx, failure):
     """Fewest cuts that still fail on the real code."""
     case = failure["case"]
+    if "members" in case or case.get("sends") or case.get("large"):
+        return failure
     cuts = list(case["cuts"] or [])
     if len(cuts) <= 1:
         return failure
